@@ -25,11 +25,16 @@ let res_str = function Some Success -> "ok" | Some Failed -> "failed" | Some Fai
 let run () = iter_lines (fun line ->
   let rest = String.sub line 2 (String.length line - 2) in
   match split_on '|' rest with
+  | [tag; ex] when String.length tag > 0 && tag.[0] = '!' ->
+    (* C20: the exit status is 0, 50 or 1 -- 1 when scrut itself could not do its job, here: could not write the result *)
+    bump ("cli:" ^ tag); note_distinct line true;
+    if D_config.field ex <> "1" then report "SPEC:C20" (Printf.sprintf "STDOUT cannot be written to (%s): exit status %s, not 1" tag (D_config.field ex)) line
   | [docs_s; ct; ex; json; entries; marks; leftover; late; compat_s; dirs_s] ->
     let compat = (compat_s = "compat=1") in
     if dirs_s = "dirs=1" then bump "documents given as directories (nested, next to files that are no documents)";
     let docs = List.mapi parse_doc (split_on ';' docs_s) in
-    let cli_timeout = (let v = D_config.field ct in if v = "-" then None else Some (1000 * int_of_string v)) in
+    (* a limit of more than twelve digits of seconds (2^64 - 1 is generated) is beyond what the clock can express: no limit *)
+    let cli_timeout = (let v = D_config.field ct in if v = "-" then None else if String.length v > 12 then (bump "cli:--timeout-seconds 2^64-1"; Some 0) else Some (1000 * int_of_string v)) in
     let cli_unlimited = (cli_timeout = Some 0) in   (* --timeout-seconds 0: no limit, whatever the documents say *)
     let mains = List.filter (fun d -> d.role = 'm') docs in
     let pres = List.filter (fun d -> d.role = 'p') docs and apps = List.filter (fun d -> d.role = 'a') docs in
@@ -115,7 +120,7 @@ let run () = iter_lines (fun line ->
     if cli_unlimited && List.exists (fun e -> (match String.rindex_opt e '=' with Some i -> String.sub e (i + 1) (String.length e - i - 1) = "timeout" | None -> false))
                           (if entries = "-" then [] else split_on ',' entries) then
       report "SPEC:C16" "--timeout-seconds 0 (no limit) was given on the command line and yet a test case timed out on the limit of the document" line;
-    if cli_unlimited && late = "late=-" then report "SPEC:C16" "--timeout-seconds 0 (no limit) was given and yet the slow command did not run to its end" line;
+    if cli_unlimited && (has 'T' || has 'G') && late = "late=-" then report "SPEC:C16" "--timeout-seconds 0 (no limit) was given and yet the slow command did not run to its end" line;
     if has 'T' || has 'G' then bump "waited-for-late-effects";
     (* ---- oracles on what the implementation reported ---- *)
     let kind_of e = (match String.rindex_opt e '=' with Some i -> String.sub e (i + 1) (String.length e - i - 1) | None -> "?") in
